@@ -20,6 +20,7 @@ RULE = ("each invertible class x dims with random well-conditioned parameters; P
         "singular-value floors; double inversion; non-trivial = non-identity transform; distinct = (class, dims, options, target kind)")
 ASSUMPTIONS = ["probe points for PWA lie strictly inside source (resp. target) triangles", "TPS declares no true inverse: only the reverse-fit clause is judged for it"]
 DECIDING_TAPS = ["pseudoinverse"]
+REPLAY_PATHS = ['menpo/transform/test', 'menpo/image/test']      # suite replay (thorough tier): the repository's own tests under these monitors
 SHARDS = {"quick": 8, "thorough": 16}
 
 
